@@ -276,7 +276,19 @@ pub(crate) fn solve_expression(
                                         Value::Int(0)
                                     }
                                 }
-                                Value::Float(x) => Value::Int(x.round() as i64),
+                                Value::Float(x) => {
+                                    let r = x.round();
+                                    // NOTE: `as` saturates (and maps NaN to 0), only cast what fits
+                                    if r >= -9223372036854775808.0 && r < 9223372036854775808.0 {
+                                        Value::Int(r as i64)
+                                    } else {
+                                        debug!(
+                                            "evaluating false, could not cast left hand side for {} - {}",
+                                            expression, x
+                                        );
+                                        return SolverResult::False;
+                                    }
+                                }
                                 Value::Int(x) => Value::Int(x),
                                 Value::String(x) => match x.parse::<i64>() {
                                     Ok(i) => Value::Int(i),
@@ -419,7 +431,19 @@ pub(crate) fn solve_expression(
                                         Value::Int(0)
                                     }
                                 }
-                                Value::Float(x) => Value::Int(x.round() as i64),
+                                Value::Float(x) => {
+                                    let r = x.round();
+                                    // NOTE: `as` saturates (and maps NaN to 0), only cast what fits
+                                    if r >= -9223372036854775808.0 && r < 9223372036854775808.0 {
+                                        Value::Int(r as i64)
+                                    } else {
+                                        debug!(
+                                            "evaluating false, could not cast right hand side for {} - {}",
+                                            expression, x
+                                        );
+                                        return SolverResult::False;
+                                    }
+                                }
                                 Value::Int(x) => Value::Int(x),
                                 Value::String(x) => match x.parse::<i64>() {
                                     Ok(i) => Value::Int(i),
